@@ -67,6 +67,10 @@ namespace AIToolbox::Factored::MDP {
 
         size_t startingVars = phiId + 1;   // ws + phi
         for (const auto & f : C.bases) startingVars += f.values.size() * 2;
+        // With no basis to carry the constant basis, we name it explicitly as
+        // a function of the first state factor.
+        const bool explicitConstant = addConstantBasis && C.bases.empty();
+        if (explicitConstant) startingVars += S[0] * 2;
         for (const auto & f : b.bases) startingVars += f.values.size() * 2;
 
         // Init LP with starting variables
@@ -110,7 +114,28 @@ namespace AIToolbox::Factored::MDP {
             }
             lp.row[currentWeight++] = 0.0;
         }
-        lp.row[constBasisId] = 0.0;
+        if (explicitConstant) {
+            // The constant basis (value 1 everywhere) as a set of rules over
+            // the first state factor, so that VE cross-sums it exactly once
+            // for every state.
+            auto newFactor = graph.getFactor(PartialKeys{0});
+
+            for (size_t i = 0; i < S[0]; ++i) {
+                lp.row[currentRule] = -1.0;
+                lp.row[constBasisId] = 1.0;
+                lp.pushRow(LP::Constraint::Equal, 0.0);
+                lp.row[currentRule] = 0.0;
+
+                lp.row[currentRule+1] = -1.0;
+                lp.row[constBasisId] = -1.0;
+                lp.pushRow(LP::Constraint::Equal, 0.0);
+                lp.row[currentRule+1] = 0.0;
+
+                newFactor->getData().emplace_back(i, currentRule);
+                currentRule += 2;
+            }
+        }
+        if (addConstantBasis) lp.row[constBasisId] = 0.0;
 
         // Here signs are opposite to those of C since we need to find (Cw - b)
         // and (b - Cw)
